@@ -369,6 +369,9 @@ inductive Op where
   | update (i : Nat) (bt : Nat) (h : Header)
   | dry (i : Nat) (bt : Nat) (h : Header)
   | upgrade (i : Nat) (cs1 : ClientState) (bt : Nat)
+  /-- the hosting chain is exported (`ExportGenesis`, incl. the BSC client's `ExportMetadata`: recent signers and
+  pending validators) and re-imported (`InitGenesis`) -/
+  | restart
 
 /-- verdict of the real call (`ok` / `err` / `panic` as seen by the caller) -/
 def verdict {α} : Outcome α → Outcome Unit
@@ -406,6 +409,7 @@ def applyOp (env : Env) (w : World) : Op → World × Outcome Unit
       | .ok s => (w.set i s, .ok ())
       | .err e => (w, .err e)
       | .panic p => (w, .panic p)
+  | .restart => (w, .ok ())
 
 def runOps (env : Env) (w : World) (ops : List Op) : World := ops.foldl (fun w op => (applyOp env w op).1) w
 
@@ -415,5 +419,6 @@ def Op.touches (c : Nat) : Op → Bool
   | .update i _ _ => i == c
   | .dry _ _ _ => false
   | .upgrade i _ _ => i == c
+  | .restart => false
 
 end TM.Bsc
